@@ -284,6 +284,9 @@ type Violation struct {
 	Msg   string            `json:"msg,omitempty"`
 	Model map[string]uint64 `json:"model"`
 	NPC   int               `json:"npc"`
+	// structural choices only (svPick / map order): an engine-side confirmation
+	// fixes these and leaves the data inputs symbolic
+	Choices map[string]uint64 `json:"choices,omitempty"`
 }
 
 type Sample struct {
@@ -933,7 +936,7 @@ func (e *explorer) assertCond(c value, label string) {
 		if e.replaying() {
 			panic(stopPath{})
 		}
-		v := Violation{Label: label, Kind: "assert", NPC: len(e.pc)}
+		v := Violation{Label: label, Kind: "assert", NPC: len(e.pc), Choices: e.choicesCopy()}
 		if e.sol.check() == "sat" {
 			v.Model = e.model()
 		}
@@ -953,7 +956,7 @@ func (e *explorer) assertCond(c value, label string) {
 			e.scripts = append(e.scripts, strings.Join(e.sol.script, "\n")+"\n; expect "+r+"\n")
 		}
 		if r == "sat" {
-			v := Violation{Label: label, Kind: "assert", NPC: len(e.pc), Model: e.model()}
+			v := Violation{Label: label, Kind: "assert", NPC: len(e.pc), Model: e.model(), Choices: e.choicesCopy()}
 			e.viols = append(e.viols, v)
 		}
 		e.sol.send("(pop)")
@@ -1354,4 +1357,12 @@ func ptrArg(v value) *value {
 		}
 	}
 	panic(abortPath{fmt.Sprintf("engine: pointer argument expected, got %T", v)})
+}
+
+func (e *explorer) choicesCopy() map[string]uint64 {
+	m := map[string]uint64{}
+	for k, v := range e.choices {
+		m[k] = v
+	}
+	return m
 }
